@@ -448,11 +448,11 @@ def run(prop, tier, seed, backends=BACKENDS, only_universe=None):
     design = tlc.DesignCheck([("MC_Store", "MC_Store_%s.cfg" % b, "Store/" + b) for b in backends], workers=3, timeout=1800)
     depth = {"quick": 3, "thorough": 4}[tier]
     depth_of = {"regc": {"quick": 4, "thorough": 5}[tier], "service": {"quick": 3, "thorough": 4}[tier]}
-    cap_of = {"regc": {"quick": 1300, "thorough": 3000}[tier]}
+    cap_of = {"regc": {"quick": 1300, "thorough": 2000}[tier]}
     if prop in ("C03", "C04"):
         depth = {"quick": 1, "thorough": 2}[tier]     # every variant on its own (and pairs): the quantifier is over inputs
         depth_of = {"twins": {"quick": 3, "thorough": 4}[tier], "verbatim": 2, "service": {"quick": 3, "thorough": 4}[tier]}
-    cap = {"quick": 1500 if prop == "C06" else 500, "thorough": 3000 if prop == "C17" else 6000}[tier]
+    cap = {"quick": 1500 if prop == "C06" else 500, "thorough": 1500 if prop == "C17" else 6000}[tier]
     own = prop + "_"
     # phase 1: TLC generates behaviours of Store.tla per (universe, backend, writer mode)
     configs = []
